@@ -1,6 +1,7 @@
 (* Property C18 — types, domains, schemas, databases, tablespaces yield one exact entity each (the forms under a theorem). *)
 From Coq Require Import String Ascii List ZArith NArith Bool.
-From SDP Require Import Base PyStr Lexer Actions Parse Engine Seq KeywordProofs Entity EntityProofs.
+From SDP Require Import Base PyStr Lexer Actions Parse Engine Seq KeywordProofs Entity EntityProofs Output OtherOutProofs.
+From SDP.Gen Require Tokens.
 Import ListNotations.
 Open Scope string_scope.
 
@@ -11,6 +12,12 @@ Theorem C18_entity_exact : forall e norm silent, Entity.wf e = true ->
   parse_lexemes norm silent (Entity.lexemes e) = Ok (Some (Entity.denote norm e)).
 Proof. exact entity_parse. Qed.
 Print Assumptions C18_entity_exact.
+
+(* ... and in every supported output mode the entity is reported exactly as parsed *)
+Theorem C18_entity_reported_unchanged : forall e norm m, In m Tokens.modes ->
+  exists d, Entity.denote norm e = PDict d /\ Output.format m false [PDict d] = Ok (PList [PDict d]).
+Proof. exact entity_every_mode. Qed.
+Print Assumptions C18_entity_reported_unchanged.
 
 (* which grammar keywords can NOT name such an entity: derived on the real tables *)
 Theorem C18_keywords_not_accepted_as_entity_name :
